@@ -289,13 +289,18 @@ pub struct Case {
     /// shim plan on fd 1 (transient faults only)
     pub plan: String,
     pub hash_seed: u64,
+    /// transient faults on the fd the program text / image is read from (EINTR, short reads): must be absorbed
+    pub rplan: String,
+    /// `plan` holds a hard error on fd 1 (reader gone, disk full) placed at a particular write of this very program: the run
+    /// may then end at that print instead of at the guest fault, but never by a signal, and what arrived is a prefix
+    pub hard_stdout: bool,
 }
 
 impl Case {
     pub fn to_json(&self) -> Value {
         json!({"engine": ENGINE, "kind": "injection", "base": self.base, "k": self.k, "class": self.class, "placement": self.placement,
                "path": if self.path == Path::Run { "run" } else { "staged" }, "profile": self.profile.name(), "channel": self.channel,
-               "plan": self.plan, "hash_seed": self.hash_seed})
+               "plan": self.plan, "hash_seed": self.hash_seed, "rplan": self.rplan, "hard_stdout": self.hard_stdout})
     }
     pub fn from_json(v: &Value) -> Option<Case> {
         Some(Case {
@@ -308,6 +313,8 @@ impl Case {
             channel: v.get("channel")?.as_str()?.to_string(),
             plan: v.get("plan")?.as_str()?.to_string(),
             hash_seed: v.get("hash_seed")?.as_u64()?,
+            rplan: v.get("rplan").and_then(|x| x.as_str()).unwrap_or("").to_string(),
+            hard_stdout: v.get("hard_stdout").and_then(|x| x.as_bool()).unwrap_or(false),
         })
     }
 }
@@ -320,6 +327,13 @@ pub struct Observed {
     pub early_stage_failed: Option<String>,
     pub children: u64,
     pub faults_fired: u64,
+    /// write calls the final child made on fd 1, and whether a hard error was answered there
+    pub o_calls: u64,
+    pub hard_fired: bool,
+}
+
+fn join_plans(a: &str, b: &str) -> String {
+    match (a.is_empty(), b.is_empty()) { (true, _) => b.to_string(), (_, true) => a.to_string(), _ => format!("{};{}", a, b) }
 }
 
 fn shim(seed: u64, plan: &str) -> Option<ShimCfg> {
@@ -328,6 +342,11 @@ fn shim(seed: u64, plan: &str) -> Option<ShimCfg> {
 
 /// Runs a source through `fml run` or through parse | compile | execute.
 pub fn run_source(source: &str, path: Path, profile: Profile, channel: &str, plan: &str, seed: u64) -> Observed {
+    run_source_ext(source, path, profile, channel, plan, "", &[], seed)
+}
+
+/// `rplan`: transient read faults on the fd the source / image is read from; `env`: extra environment of every child.
+pub fn run_source_ext(source: &str, path: Path, profile: Profile, channel: &str, plan: &str, rplan: &str, env: &[(String, String)], seed: u64) -> Observed {
     let dir = scratch_dir();
     std::fs::write(dir.join("x.fml"), source).unwrap();
     let mut children = 0;
@@ -338,14 +357,16 @@ pub fn run_source(source: &str, path: Path, profile: Profile, channel: &str, pla
     let final_result: Option<ChildResult> = match path {
         Path::Run => {
             let mut c = Child::new(profile, &["run", "x.fml"]);
-            c.shim = shim(seed, plan);
+            c.shim = shim(seed, &join_plans(plan, rplan));
+            c.env = env.to_vec();
             set_out(&mut c);
             children += 1;
             Some(run_child(&dir, &c))
         }
         Path::Staged => {
             let mut c = Child::new(profile, &["parse", "x.fml", "-o", "x.json"]);
-            c.shim = shim(seed, "");
+            c.shim = shim(seed, rplan);
+            c.env = env.to_vec();
             children += 1;
             let r = run_child(&dir, &c);
             if !r.exit.is_success() {
@@ -354,6 +375,7 @@ pub fn run_source(source: &str, path: Path, profile: Profile, channel: &str, pla
             } else {
                 let mut c = Child::new(profile, &["compile", "x.json", "-o", "x.bc"]);
                 c.shim = shim(seed, "");
+                c.env = env.to_vec();
                 children += 1;
                 let r = run_child(&dir, &c);
                 if !r.exit.is_success() {
@@ -361,7 +383,8 @@ pub fn run_source(source: &str, path: Path, profile: Profile, channel: &str, pla
                     Some(r)
                 } else {
                     let mut c = Child::new(profile, &["execute", "x.bc"]);
-                    c.shim = shim(seed, plan);
+                    c.shim = shim(seed, &join_plans(plan, rplan));
+                    c.env = env.to_vec();
                     set_out(&mut c);
                     children += 1;
                     Some(run_child(&dir, &c))
@@ -371,8 +394,10 @@ pub fn run_source(source: &str, path: Path, profile: Profile, channel: &str, pla
     };
     let r = final_result.unwrap();
     let _ = std::fs::remove_dir_all(&dir);
-    let fired = r.trace.lines().filter(|l| l.starts_with("W o ") && (l.ends_with("short") || l.contains("-> E"))).count() as u64;
-    Observed { exit: r.exit, stdout: r.stdout, stderr: r.stderr, early_stage_failed: early, children, faults_fired: fired }
+    let fired = r.trace.lines().filter(|l| (l.starts_with("W o ") && (l.ends_with("short") || l.contains("-> E"))) || (l.starts_with("R ") && (l.ends_with("cut") || l.ends_with("-> E4")))).count() as u64;
+    let o_calls = r.trace.lines().filter(|l| l.starts_with("W o ")).count() as u64;
+    let hard_fired = r.trace.lines().any(|l| l.starts_with("W o ") && l.contains("-> E") && !l.ends_with("-> E4"));
+    Observed { exit: r.exit, stdout: r.stdout, stderr: r.stderr, early_stage_failed: early, children, faults_fired: fired, o_calls, hard_fired }
 }
 
 /// Fault-free run of the marked base: must succeed, with empty stderr, and every marker exactly once.
@@ -417,6 +442,20 @@ pub fn judge(case: &Case, base_stdout: &[u8], own: &str, own_exact: bool, o: &Ob
         // the injected statement is valid source that compiles; a stage refusing it is reported
         return Some(("O0:stage_refuses_injected_program".into(), e.clone()));
     }
+    if case.hard_stdout && o.hard_fired {
+        // stdout failed for good at one of this program's own writes: the run may end there (any non-signal status), and nothing
+        // is claimed about how; but it never dies by a signal, and what arrived is a prefix of what the program prints
+        if o.exit.is_native_crash() {
+            return Some(("O8:died_by_signal_when_stdout_failed".into(), format!("{} for fault class {} at {} with stdout plan `{}`", o.exit.show(), case.class, case.placement, case.plan)));
+        }
+        let mut expected = prefix_through_marker(base_stdout, case.k - 1);
+        expected.extend_from_slice(own.as_bytes());
+        if !expected.starts_with(&o.stdout) {
+            let at = first_difference(&o.stdout, &expected).unwrap_or(0);
+            return Some(("O8:output_not_a_prefix_when_stdout_failed".into(), format!("class {} placement {} position {} with stdout plan `{}`: {} bytes arrived, first difference from the expected output at {}", case.class, case.placement, case.k, case.plan, o.stdout.len(), at)));
+        }
+        return None;
+    }
     if o.exit.is_native_crash() {
         return Some(("O2:died_by_signal".into(), format!("{} for fault class {} at {}", o.exit.show(), case.class, case.placement)));
     }
@@ -458,7 +497,7 @@ pub fn replay_case(case: &Case) -> Result<Option<(String, String)>, String> {
     let f = fault(&case.class, case.k);
     let (stmts, own, exact) = place(&f, &case.placement, case.k);
     let source = work::join_stmts(&injected(&case.base, case.k, &stmts));
-    let o = run_source(&source, case.path, case.profile, &case.channel, &case.plan, case.hash_seed);
+    let o = run_source_ext(&source, case.path, case.profile, &case.channel, &case.plan, &case.rplan, &[], case.hash_seed);
     Ok(judge(case, &base_stdout, &own, exact, &o))
 }
 
@@ -471,6 +510,11 @@ pub fn minimise(case: &Case, oracle: &str) -> Case {
     if !best.plan.is_empty() {
         let mut c = best.clone();
         c.plan = String::new();
+        if still(&c) { best = c; }
+    }
+    if !best.rplan.is_empty() {
+        let mut c = best.clone();
+        c.rplan = String::new();
         if still(&c) { best = c; }
     }
     // statements after the injection point never run: drop them first, then earlier ones
@@ -771,20 +815,23 @@ pub struct StressCase {
     pub source: String,
     pub profile: Profile,
     pub path: Path,
+    /// extra environment of the children (RUST_MIN_STACK and friends: no bound of the property may depend on it)
+    pub env: Vec<(String, String)>,
 }
 
 impl StressCase {
     pub fn to_json(&self) -> Value {
-        json!({"engine": ENGINE, "kind": "stress", "name": self.name, "source": self.source, "profile": self.profile.name(), "path": if self.path == Path::Run { "run" } else { "staged" }})
+        json!({"engine": ENGINE, "kind": "stress", "name": self.name, "source": self.source, "profile": self.profile.name(), "path": if self.path == Path::Run { "run" } else { "staged" }, "env": self.env})
     }
     pub fn from_json(v: &Value) -> Option<StressCase> {
+        let env = v.get("env").and_then(|e| e.as_array()).map(|a| a.iter().filter_map(|e| Some((e.get(0)?.as_str()?.to_string(), e.get(1)?.as_str()?.to_string()))).collect()).unwrap_or_default();
         Some(StressCase { name: v.get("name")?.as_str()?.to_string(), source: v.get("source")?.as_str()?.to_string(), profile: Profile::from_name(v.get("profile")?.as_str()?)?,
-                          path: if v.get("path")?.as_str()? == "run" { Path::Run } else { Path::Staged } })
+                          path: if v.get("path")?.as_str()? == "run" { Path::Run } else { Path::Staged }, env })
     }
 }
 
 pub fn judge_stress(c: &StressCase) -> Option<(String, String)> {
-    let o = run_source(&c.source, c.path, c.profile, "pipe", "", 5);
+    let o = run_source_ext(&c.source, c.path, c.profile, "pipe", "", "", &c.env, 5);
     if o.exit.is_native_crash() {
         let stage = o.early_stage_failed.clone().unwrap_or_else(|| "execution".into());
         return Some(("O6:native_crash".into(), format!("template {} ({}, {}): {} during {}; stdout held {} bytes", c.name, c.profile.name(), if c.path == Path::Run { "run" } else { "staged" }, o.exit.show(), first_line(&stage, 60), o.stdout.len())));
@@ -839,7 +886,11 @@ fn exercise_base(idx: usize, base: &[String], rng: &mut Rng, thorough: bool) -> 
                     2 => format!("o:{}:s:1;o:{}:e:0", rng.below(4), 1 + rng.below(5)),
                     _ => String::new(),
                 };
-                let case = Case { base: base.to_vec(), k, class: class.to_string(), placement: placement.to_string(), path, profile, channel: channel.to_string(), plan, hash_seed };
+                // one case in five: transient faults on the fd the program is read from (the first or second read interrupted, short deliveries)
+                let rplan = match rng.below(10) { 0 => format!("r:{}:e:0", rng.below(2)), 1 => format!("r:*:l:{}", rng.pick(&[1u32, 7, 100])), _ => String::new() };
+                let mut case = Case { base: base.to_vec(), k, class: class.to_string(), placement: placement.to_string(), path, profile, channel: channel.to_string(), plan, hash_seed, rplan, hard_stdout: false };
+                let want_hard_stdout = rng.below(6) == 0;
+                let (hard_at, hard_errno, hard_short) = (rng.below(4), *rng.pick(&[28u32, 32, 5, 27]), rng.coin());
                 let key = (path, profile);
                 if !bases.iter().any(|(k2, _)| *k2 == key) {
                     let r = base_output(base, path, profile, hash_seed);
@@ -860,10 +911,24 @@ fn exercise_base(idx: usize, base: &[String], rng: &mut Rng, thorough: bool) -> 
                 let f = fault(class, k);
                 let (stmts, own, exact) = place(&f, placement, k);
                 let source = work::join_stmts(&injected(base, k, &stmts));
-                let o = run_source(&source, path, profile, channel, &case.plan, hash_seed);
+                if want_hard_stdout {
+                    // where this very program writes: count its write calls on fd 1 in an undisturbed run, then fail the first, the
+                    // last (the one carrying what is still buffered when the fault strikes), the last but one, or the middle one
+                    let clean = run_source(&source, path, profile, channel, "", hash_seed);
+                    out.children += clean.children;
+                    if clean.o_calls > 0 {
+                        let n = clean.o_calls;
+                        let at = match hard_at { 0 => 0, 1 => n - 1, 2 => n.saturating_sub(2), _ => n / 2 };
+                        case.plan = if hard_short { format!("o:{}:s:1;o:{}:x:{}", at, at + 1, hard_errno) } else { format!("o:{}:x:{}", at, hard_errno) };
+                        case.hard_stdout = true;
+                    }
+                }
+                let o = run_source_ext(&source, path, profile, channel, &case.plan, &case.rplan, &[], hash_seed);
                 out.children += o.children;
                 out.evaluations += 1;
-                out.distinct.push(digest_of(&(digest, k, class, placement, path, profile, channel, &case.plan)));
+                if case.hard_stdout && o.hard_fired { out.counters.push(("injections_with_hard_error_on_stdout_fired".into(), 1)); }
+                if !case.rplan.is_empty() { out.counters.push(("injections_with_transient_faults_on_the_source_fd".into(), 1)); }
+                out.distinct.push(digest_of(&(digest, k, class, placement, path, profile, channel, &case.plan, &case.rplan)));
                 out.counters.push((format!("fault_class.{}", class), 1));
                 out.counters.push((format!("placement.{}", placement), 1));
                 if o.faults_fired > 0 { out.counters.push(("injections_with_stdout_write_fault_fired".into(), 1)); }
@@ -958,9 +1023,14 @@ pub fn run(seed: u64, tier: &str, ev: &mut Evidence) -> Vec<Violation> {
     let mut stress_cases: Vec<StressCase> = Vec::new();
     for (name, source) in &templates {
         for profile in [Profile::Debug, Profile::Release] {
-            stress_cases.push(StressCase { name: name.clone(), source: source.clone(), profile, path: Path::Run });
+            stress_cases.push(StressCase { name: name.clone(), source: source.clone(), profile, path: Path::Run, env: vec![] });
         }
-        stress_cases.push(StressCase { name: name.clone(), source: source.clone(), profile: Profile::Debug, path: Path::Staged });
+        stress_cases.push(StressCase { name: name.clone(), source: source.clone(), profile: Profile::Debug, path: Path::Staged, env: vec![] });
+        // the bounds are the property's, not the environment's: the Rust runtime's own stack knob, small, must not move them
+        if !name.starts_with("scale_") && !name.contains("on_a_heap_of_300000") {
+            stress_cases.push(StressCase { name: name.clone(), source: source.clone(), profile: Profile::Debug, path: Path::Run, env: vec![("RUST_MIN_STACK".into(), "262144".into())] });
+            stress_cases.push(StressCase { name: name.clone(), source: source.clone(), profile: Profile::Release, path: Path::Run, env: vec![("RUST_MIN_STACK".into(), "65536".into())] });
+        }
     }
     let n_graphs = if thorough { 60_000usize } else { 2000 };
     for j in 0..n_graphs {
@@ -968,14 +1038,14 @@ pub fn run(seed: u64, tier: &str, ev: &mut Evidence) -> Vec<Violation> {
         let source = random_graph_program(&mut rng);
         let profile = if rng.coin() { Profile::Debug } else { Profile::Release };
         let path = if rng.below(5) == 0 { Path::Staged } else { Path::Run };
-        stress_cases.push(StressCase { name: "random_heap_graph".into(), source, profile, path });
+        stress_cases.push(StressCase { name: "random_heap_graph".into(), source, profile, path, env: vec![] });
     }
     ev.count("random_heap_graph_programs", n_graphs as u64);
     let stress: Vec<Option<(String, String)>> = par_map(stress_cases.len(), |i| judge_stress(&stress_cases[i]));
     for (c, v) in stress_cases.iter().zip(stress.into_iter()) {
         ev.evaluations += 1;
         children += if c.path == Path::Run { 1 } else { 3 };
-        ev.distinct.insert(digest_of(&("stress", &c.name, digest_bytes(c.source.as_bytes()), c.profile, c.path)));
+        ev.distinct.insert(digest_of(&("stress", &c.name, digest_bytes(c.source.as_bytes()), c.profile, c.path, &c.env)));
         ev.count("stress_template_runs", 1);
         if let Some((o, d)) = v {
             let family: String = c.name.trim_end_matches(|ch: char| ch.is_ascii_digit() || ch == '_').to_string();
